@@ -5,6 +5,7 @@ From ZV.Gen Require Import Gen_Sizes.
 From ZV.Index Require Import Window Overflow.
 From ZV.Det Require Import ResetModel CwkspClean RowSalt OptStats MtPartition StreamPartition BlockState DictMode ApiState RawFallback.
 From ZV.Det Require StableIn.
+From ZV.Det Require MtParams.
 Import ListNotations.
 Local Open Scope Z_scope.
 
@@ -174,6 +175,20 @@ Fixpoint quads (l : list Z) : list StableIn.sop :=
 Definition d_stablein (a : list Z) : list Z :=
   StableIn.strace (bz (nthz a 0)) (nthz a 1) StableIn.s_fresh (quads (skipn 2 a)) ++ [StableIn.BLOCKSIZE_MAX].
 
+(* 18 (round 3): mid-frame parameter updates of a multithreaded frame (Det/MtParams.v).  args: target fullAt (index of the
+   ZSTDMT_compressStream_generic call that finds the jobs table full, -1 = never), then triples (kind a b): 0 = input call of a bytes with
+   directive b, 1 = accepted ZSTD_CCtx_setParameter making the parameters identity a.  -> (size, parameters) of every job carrying input,
+   or -1 when the schedule of 64 calls runs out *)
+Fixpoint mtp_ops (l : list Z) : list MtParams.pop :=
+  match l with k :: a :: b :: t => (if k =? 0 then MtParams.PCall a b else MtParams.PSet a) :: mtp_ops t | _ => [] end.
+Definition mtp_envs (fullAt : Z) : list env :=
+  map (fun i => mkEnv true (Z.of_nat i =? fullAt) true) (seq 0 64).
+Definition d_mtparams (a : list Z) : list Z :=
+  match MtParams.prun (nthz a 0) MtParams.p_init (mtp_ops (skipn 2 a)) (mtp_envs (nthz a 1)) with
+  | Some s => flat_map (fun x => [fst x; snd x]) (MtParams.tagged_sizes s)
+  | None => [-1]
+  end.
+
 Definition dispatch (opcode : Z) (a : list Z) : list Z :=
   if opcode =? 1 then d_reset a
   else if opcode =? 2 then d_cwksp a
@@ -192,4 +207,5 @@ Definition dispatch (opcode : Z) (a : list Z) : list Z :=
   else if opcode =? 15 then d_mingain a
   else if opcode =? 16 then d_contig a
   else if opcode =? 17 then d_stablein a
+  else if opcode =? 18 then d_mtparams a
   else [].
